@@ -96,7 +96,10 @@ def mk_image(parent, s):
     return img
 
 
-def build(spec):
+def build(spec, _pollute=True):
+    if _pollute:
+        # an unrelated object of the same classes is built first: class- or module-level state must not leak into this one
+        build(seed_v11(), _pollute=False)
     import productmd.images as pi
     im = pi.Images()
     if spec["header"]:
